@@ -392,7 +392,8 @@ def _density_oracle(res, viol):
     for (a, b) in (((0.02, 0.03), (0.05, 0.06)), ((-0.06, 0.01), (-0.02, 0.04)), ((-0.05, -0.08), (-0.01, -0.03)), ((0.01, -0.07), (0.03, -0.02))):
         def dens(y, x):
             u = np.array([model.marginal_tail_integral(0, x), model.marginal_tail_integral(1, y)])
-            return abs(model.copula.x_first_derivative(u) / (u[0] * u[1])) * nu[0](x) * nu[1](y)
+            # joint Levy density = |d2F/dudv|(U_1(x), U_2(y)) nu_1(x) nu_2(y); x_first_derivative is +-(d2F/dudv) (see F-C11-1)
+            return abs(model.copula.x_first_derivative(u)) * nu[0](x) * nu[1](y)
         val, err = dblquad(dens, a[0], b[0], lambda x: a[1], lambda x: b[1], epsabs=1e-10, epsrel=1e-9)
         m = call_mass(model, "fast", a, b, None)
         res.count(("density", a, b), kind="joint density integral")
